@@ -119,8 +119,8 @@ def load_known(pid):
     if os.path.exists(path):
         for ln in open(path):
             ln = ln.strip()
-            if not ln or ln.startswith("#"):
-                continue
+            if not ln.startswith("{"):
+                continue      # comments and 'fixed:' records suppress nothing
             d = json.loads(ln)
             if d.get("status", "open") == "open" and d.get("property") == pid:
                 out.append(d)
